@@ -7,7 +7,7 @@
 From Coq.Strings Require Import Byte String.
 From Coq Require Import List Arith ZArith Bool.
 Import ListNotations.
-From V Require Import lib.Bytes lib.SrcPos spec.PosOf model.ParseInput proofs.ParseInputProof.
+From V Require Import lib.Bytes lib.SrcPos spec.PosOf model.ParseInput model.GoExprScan proofs.ParseInputProof proofs.GoExprScanProof.
 Local Open Scope nat_scope.
 
 (* ------------------------------------------------------------------------------------------------ *)
@@ -153,6 +153,60 @@ Lemma C06_extract_unclamped_refutable :
       (Z.of_nat (length container_prefix) <= s0)%Z /\ extract extractor content = Some (s, e) /\ (e < 0)%Z /\ (s < 0)%Z) /\
   (forall pi start end_, ~ (start <= end_ /\ end_ <= length (rest pi)) -> parse_go pi start end_ = None).
 Proof. exact (conj (proj1 extract_unclamped_refutable) (conj (proj2 extract_unclamped_refutable) parse_go_panics)). Qed.
+
+(* ------------------------------------------------------------------------------------------------ *)
+(* The scanner-based extractors (TemplExpression: `@component(...)`; Expression: `{{ }}`, `{! }`, `{ x... }`,
+   `x?={ }`) compute the end of the expression from the tokens of go/scanner: token position + length of the token's
+   LITERAL - 1.  C06_range_constructors_ok takes `end <= len` as the extractor's contract; for these two it is not a
+   consequence of anything parser/v2 checks, because a literal need not be source text: an invalid UTF-8 byte is an
+   ILLEGAL token whose literal is the 3-byte U+FFFD.  Since 906dd9d TemplExpression clamps the end into the source:
+   for EVERY token stream (any literal lengths) its answer is 0 = start <= end <= len(src), and parseGo neither
+   panics nor records an unfaithful range.  Expression returns an error on ILLEGAL before measuring it; on the tokens
+   it does take an end from, `the token ends inside the source` is go/scanner's contract (monitored by the harness on
+   every token of every generated expression). *)
+Theorem C06_scanner_extractors_inside :
+  (forall toks srclen s e,
+     Forall (fun t : gtoken => (1 <= fst (fst t))%Z) toks ->
+     templ_expression toks srclen = Some (Some (s, e)) -> (s = 0 /\ 0 <= e /\ e <= Z.of_nat srclen)%Z) /\
+  (forall pi toks s e, wf pi ->
+     Forall (fun t : gtoken => (1 <= fst (fst t))%Z) toks ->
+     templ_expression toks (length (rest pi)) = Some (Some (s, e)) ->
+     exists ex pi', parse_go pi (Z.to_nat s) (Z.to_nat e) = Some (ex, pi') /\ range_ok (in_s pi) ex /\ wf pi' /\
+                    in_idx pi' = in_idx pi + Z.to_nat e) /\
+  (forall pi toks s e, wf pi ->
+     Forall (fun t : gtoken => let '(pos, tok, len) := t in
+               expr_sets_end tok = true -> (0 <= expr_tok_end pos tok len <= Z.of_nat (length (rest pi)))%Z) toks ->
+     expression_scan toks = Some (Some (s, e)) ->
+     (s = 0 /\ 0 <= e /\ e <= Z.of_nat (length (rest pi)))%Z /\
+     exists ex pi', parse_go pi (Z.to_nat s) (Z.to_nat e) = Some (ex, pi') /\ range_ok (in_s pi) ex /\ wf pi') /\
+  (forall pre pos len post,
+     Forall (fun t : gtoken => let '(_, tok, _) := t in
+               match tok with GEof | GIllegal => False | GClose 1 => False | _ => True end) pre ->
+     expression_scan (pre ++ (pos, GIllegal, len) :: post) = Some None).
+Proof.
+  exact (conj templ_expression_clamped (conj templ_expression_then_parse_go
+        (conj (fun pi toks s e W F H => conj (expression_scan_inside toks (length (rest pi)) s e F H)
+                                             (expression_scan_then_parse_go pi toks s e W F H))
+              expression_scan_illegal_is_error))).
+Qed.
+Print Assumptions C06_scanner_extractors_inside.
+
+(* `@func \xcb)`: FUNC, ILLEGAL with the 3-byte literal at offset 5 of 7 bytes, `)` with nothing to close.  Without
+   the clamp the end is 8 > 7 and parseGo panics (the crash fixed by 906dd9d); with it the end is 7. *)
+Lemma C06_templ_expression_unclamped_refuted :
+  exists toks src s e,
+    Forall (fun t : gtoken => (1 <= fst (fst t))%Z) toks /\
+    templ_expression_unclamped toks = Some (Some (s, e)) /\ (Z.of_nat (length src) < e)%Z /\
+    parse_go (new_input src) (Z.to_nat s) (Z.to_nat e) = None /\
+    templ_expression toks (length src) = Some (Some (0%Z, Z.of_nat (length src))).
+Proof. exact templ_expression_unclamped_refuted. Qed.
+
+(* `f(a).b {`: the expression ends behind `b`, at the blank in front of the brace *)
+Example C06_ex_templ_expression :
+  templ_expression [(1%Z, GIdent, 1); (2%Z, GOpen 0, 1); (3%Z, GIdent, 1); (4%Z, GClose 0, 1); (5%Z, GPeriod, 1);
+                    (6%Z, GIdent, 1); (8%Z, GOpen 1, 1); (9%Z, GEof, 0)] 8 = Some (Some (0%Z, 6%Z)) /\
+  expression_scan [(2%Z, GIdent, 1); (4%Z, GOther, 1); (6%Z, GOther, 3); (10%Z, GClose 1, 1); (11%Z, GClose 1, 1)] = Some (Some (0%Z, 8%Z)).
+Proof. split; vm_compute; reflexivity. Qed.
 
 (* ------------------------------------------------------------------------------------------------ *)
 (* templateNodeParser.Parse over ANY until-probe, skip parsers and ordered node parsers: if every parser that
